@@ -83,6 +83,24 @@ def de_paths(ctx, first_loop=0):
     return _cache[key]
 
 
+def de_paths_exit(ctx):
+    """paths of dispatch_events for a batch of exactly ONE event: the events loop runs one iteration and the
+    iterator is exhausted on the second visit of its head (bounded unwinding with the loop-exit assumption),
+    so every path runs on to the function's return."""
+    key = ("de_exit",)
+    if key not in _cache:
+        cfg = ctx.cfg(unroll=0, max_paths=50000)
+        f = ctx.fn(DE)
+        symex.parse_body(f)
+        heads = [b.name for b in f.blocks.values() if b.term and b.term[0] == "call"
+                 and re.search(r"Chain<.*> as Iterator>::next$", b.term[2])]
+        if len(heads) != 1:
+            raise Unsupported("events loop head not found")
+        cfg.exit_heads = {(f.short(), heads[0])}
+        _cache[key] = ctx.run(DE, cfg=cfg)
+    return _cache[key]
+
+
 def opaque_list(cfg):
     return sorted(cfg.opaque, key=lambda k: -cfg.opaque[k])[:25]
 
@@ -296,7 +314,14 @@ def ob_rm3_removed_check(ctx, tier):
             continue
         gets = [e for e in p.trace[reps[0].idx:] if is_call(e, r"SourceList::<.*>::get$")]
         if not gets:
-            continue       # early error return of reregister/unregister
+            # the function is left before the check: only possible through an error. A source that removed itself
+            # inside its callback is then never unregistered by the loop.
+            if isinstance(pe.ret, Enum) and entails(ctx, p.pc, dz(pe.ret.disc) == 1)[0]:
+                failing.append("removed_check_skipped_when_processing_fails")
+            else:
+                failing.append("removed_check_skipped_when_post_action_fails")
+            cex = cex or fmt_path(p)
+            continue
         g = gets[0]
         unregs = [e for e in p.trace[g.idx:] if is_call(e, r"EventDispatcher<Data>>::unregister$")]
         witness = True
@@ -415,19 +440,39 @@ def ob_lc2_order(ctx, tier):
 
 # ---------------------------------------------------------------- C15: err-1
 def ob_err1(ctx, tier):
-    """an Err from process_events is returned by dispatch_events (no panic, not swallowed)"""
-    f, paths, cfg = de_paths(ctx)
+    """a dispatch whose batch holds one event returns Err exactly when that event's processing, or
+    applying its post-action (reregister / unregister), failed: the error is neither swallowed nor
+    invented, and there is no panic"""
+    f, paths, cfg = de_paths_exit(ctx)
     failing, cex, witness = [], "", False
     for p in paths:
         pes = proc_events(p)
-        if not pes or not isinstance(pes[0].ret, Enum):
+        if not pes or not isinstance(pes[0].ret, Enum) or p.status == "panic":
             continue
-        is_err, _ = entails(ctx, p.pc, dz(pes[0].ret.disc) == 1)
-        if not is_err:
+        pe = pes[0]
+        is_err, _ = entails(ctx, p.pc, dz(pe.ret.disc) == 1)
+        post = [e for e in p.trace[pe.idx + 1:] if is_call(e, r"EventDispatcher<Data>>::(reregister|unregister)$")]
+        # the post-action call is the one made BEFORE the removed-source check (= before the second slot lookup)
+        gets = [e for e in p.trace[pe.idx + 1:] if is_call(e, r"SourceList::<.*>::get$")]
+        post_action_calls = [e for e in post if not gets or e.idx < gets[0].idx]
+        post_failed = any(isinstance(e.ret, Enum) and entails(ctx, p.pc, dz(e.ret.disc) == 1)[0] for e in post_action_calls)
+        if p.status != "return" or not isinstance(p.ret, Enum):
+            failing.append("dispatch_of_one_event_does_not_return")
+            cex = cex or fmt_path(p)
             continue
-        witness = True
-        if not (p.status == "return" and isinstance(p.ret, Enum) and p.ret.disc == 1):
-            failing.append("processing_error_not_returned")
+        got_err = p.ret.disc == 1 if isinstance(p.ret.disc, int) else entails(ctx, p.pc, dz(p.ret.disc) == 1)[0]
+        got_ok = p.ret.disc == 0 if isinstance(p.ret.disc, int) else entails(ctx, p.pc, dz(p.ret.disc) == 0)[0]
+        if is_err:
+            witness = True
+            if not got_err:
+                failing.append("processing_error_not_returned")
+                cex = cex or fmt_path(p)
+        elif post_failed:
+            if not got_err:
+                failing.append("post_action_error_not_returned")
+                cex = cex or fmt_path(p)
+        elif not got_ok:
+            failing.append("dispatch_reports_an_error_nobody_raised")
             cex = cex or fmt_path(p)
     return result(not failing, witness, failing, cex, "", paths, cfg)
 
@@ -1818,22 +1863,32 @@ def ob_timer(ctx, tier):
 
 
 def ob_err2_batch(ctx, tier):
-    """when a source's processing fails, the events of the batch that were not dispatched yet are not
-    lost (expired timers were already popped from the wheel when the batch was collected, one-shot
-    readiness was already consumed)"""
-    f, paths, cfg = de_paths(ctx)
+    """when a source's processing (or applying its post-action) fails, the events of the batch that were
+    not dispatched yet are not lost (expired timers were already popped from the wheel when the batch
+    was collected, one-shot readiness was already consumed): after the failure the loop goes on to
+    the next event of the batch instead of leaving the function"""
+    f, paths, cfg = de_paths_exit(ctx)
     c = Chk()
     for p in paths:
         pes = proc_events(p)
-        if not pes or not isinstance(pes[0].ret, Enum):
+        if not pes or not isinstance(pes[0].ret, Enum) or p.status == "panic":
             continue
-        if not entails(ctx, p.pc, dz(pes[0].ret.disc) == 1)[0]:
+        pe = pes[0]
+        failed = entails(ctx, p.pc, dz(pe.ret.disc) == 1)[0]
+        tag = "batch_remainder_dropped_on_error"
+        if not failed:
+            gets = [e for e in p.trace[pe.idx + 1:] if is_call(e, r"SourceList::<.*>::get$")]
+            post = [e for e in p.trace[pe.idx + 1:] if is_call(e, r"EventDispatcher<Data>>::(reregister|unregister)$")
+                    and (not gets or e.idx < gets[0].idx)]
+            failed = any(isinstance(e.ret, Enum) and entails(ctx, p.pc, dz(e.ret.disc) == 1)[0] for e in post)
+            tag = "batch_remainder_dropped_on_post_action_error"
+        if not failed:
             continue
         c.witness = True
-        # after the failing process_events: is the rest of the iterator consumed or stashed anywhere?
-        later = [e for e in p.trace[pes[0].idx + 1:] if is_call(e, r"Chain<.*> as Iterator>::(next|collect|for_each)|Vec::<PollEvent>::(extend|push|append)")]
+        # after the failure: is the iterator asked for the next event (or the rest stashed anywhere)?
+        later = [e for e in p.trace[pe.idx + 1:] if is_call(e, r"Chain<.*> as Iterator>::(next|collect|for_each)|Vec::<PollEvent>::(extend|push|append)")]
         if not later:
-            c.fail("batch_remainder_dropped_on_error", p)
+            c.fail(tag, p)
     return c.res(paths, cfg)
 
 
